@@ -4,11 +4,15 @@
     execution never changes the program, the context or earlier results" holds of the model by
     construction, and is therefore checked on the implementation by running histories and
     threads against this history-free model (tools/props.py, stream C05).  What is proved
-    here is the notion of "equal context" the property relies on.  Thread scheduling and the
-    memory model are outside the model. *)
+    here is (a) the notion of "equal context" the property relies on, and (b) - on a model of the
+    reference-count discipline behind list / string concatenation ([Heap]: owner counts,
+    Arc::make_mut, Arc::get_mut, clone-on-lookup, for context variables, literals and [+]) -
+    that in-place appending never reaches a buffer the context or an earlier result holds.
+    Thread scheduling and the memory model are outside the model. *)
 From Coq Require Import String.
 From Cel.Model Require Import Eval.
-From Cel.Proofs Require Import EvalBase CtxEquiv FrameProofs.
+From Cel.Model Require Import Heap.
+From Cel.Proofs Require Import EvalBase CtxEquiv FrameProofs HeapProofs.
 
 (** Contexts with the same functions and the same answer to every lookup - however they were
     built - give the same outcome and the same host-call log. *)
@@ -30,7 +34,38 @@ Proof. exact unrelated_variable. Qed.
 Theorem C05_inner_scope : forall e c, eval (push c) e = eval c e.
 Proof. exact inner_scope. Qed.
 
+(** (b) One execution over the store of reference-counted buffers: no buffer that existed
+    before is changed; its owner count grows by exactly the handle the result holds to it; the
+    result is a context buffer (shared, one more owner) or a fresh buffer with one owner; and
+    the value read from the store is the value of the sharing-free semantics [peval]. *)
+Theorem C05_heap_execution : forall e ρ σ σ' r, wf σ ρ -> eval_h ρ σ e = (σ', r) ->
+  result_ok ρ σ σ' r /\ read σ' r = peval (map (denote σ) ρ) e.
+Proof. exact eval_h_spec. Qed.
+
+(** Histories: after any sequence of executions (each result dropped before the next) every
+    buffer of the context has the payload and the owner count it started with, and every
+    execution returned what it returns alone against the original context. *)
+Theorem C05_heap_history : forall es ρ σ σ' outs, wf σ ρ -> run_history ρ σ es = (σ', outs) ->
+  outs = map (peval (map (denote σ) ρ)) es /\ length σ <= length σ' /\
+  (forall l, l < length σ -> pl_of σ' l = pl_of σ l /\ rc_of σ' l = rc_of σ l).
+Proof. exact history_spec. Qed.
+
+(** The in-place path is real in the model: [1] + [2] reuses the left literal's buffer (two
+    cells allocated, the result is the first); x + [2] with x held by the context copies. *)
+Example C05_ex_in_place :
+  eval_h [] [] (XAdd (XListLit [1%Z]) (XListLit [2%Z])) =
+    ([{| rc := 1; pl := PList [1%Z; 2%Z] |}; {| rc := 0; pl := PList [] |}], Ok (HRef 0)) /\
+  eval_h [HRef 0] [{| rc := 1; pl := PList [1%Z] |}] (XAdd (XVar 0) (XListLit [2%Z])) =
+    ([{| rc := 1; pl := PList [1%Z] |}; {| rc := 0; pl := PList [] |}; {| rc := 1; pl := PList [1%Z; 2%Z] |}],
+     Ok (HRef 2)) /\
+  wf [{| rc := 1; pl := PList [1%Z] |}] [HRef 0].
+Proof.
+  split; [reflexivity|split; [reflexivity|]]. intros k [[= <-]|[]]. cbn. auto.
+Qed.
+
 Print Assumptions C05_equal_context.
+Print Assumptions C05_heap_execution.
+Print Assumptions C05_heap_history.
 Print Assumptions C05_frame.
 Print Assumptions C05_private_scope.
 Print Assumptions C05_inner_scope.
